@@ -370,6 +370,10 @@ class Interp:
     def bind_name(self, frame, name, v):
         # closures: assignment binds in the current frame (no `nonlocal` in the subset)
         frame.vars[name] = v
+        con = self.contract
+        if con is not None and not self.spec and name in con.hints_after and (frame.func or self.fname) == con.target:
+            from .contract import add_hints
+            add_hints(self, con.hints_after[name], frame)
 
     def unpack(self, v, n, node):
         if v.kind == 'tuple' or v.kind == 'clist':
